@@ -320,11 +320,19 @@ func writeEvidence(path string, prop string, cfg runConfig, res *runResult, sel 
 		trusted = append(trusted, k+" ("+why+")")
 	}
 	sort.Strings(trusted)
+	var intrVerified []string
 	for k := range e.usedIntr {
 		d := intrinsicDoc[k]
+		// an engine-level model that is restated as a contract in spec/deps.spec is verified against the
+		// standard library's source (under the properties the contract names), not assumed
+		if c, ok := e.db.Contracts[intrinsicContractKey(k)]; ok && c.Trusted == "" {
+			intrVerified = append(intrVerified, k+": "+d+" [model restated in spec/deps.spec and verified against the GOROOT source under "+strings.Join(c.Props, ",")+"]")
+			continue
+		}
 		intr = append(intr, k+": "+d)
 	}
 	sort.Strings(intr)
+	sort.Strings(intrVerified)
 	lemmasAssumed = append(lemmasAssumed, res.assumed...)
 	var relies []string
 	for _, k := range sel.reliesOn {
@@ -338,6 +346,9 @@ func writeEvidence(path string, prop string, cfg runConfig, res *runResult, sel 
 	}
 	for _, t := range intr {
 		tb = append(tb, "assumed dependency contract: "+t)
+	}
+	for _, t := range intrVerified {
+		tb = append(tb, "engine-level model of a dependency routine, verified elsewhere: "+t)
 	}
 	for _, t := range trusted {
 		tb = append(tb, "trusted contract: "+t)
@@ -582,4 +593,30 @@ func globalStoreScan(lr *loadResult, modPath string) (scanned int, stores []stri
 	}
 	sort.Strings(stores)
 	return scanned, stores
+}
+
+// intrinsicContractKey maps the ssa name of a modelled routine ("pkg.Func", "(pkg.T).M", "(*pkg.T).M") to its
+// contract key in the spec database ("pkg::Func", "pkg::(T).M", "pkg::(*T).M").
+func intrinsicContractKey(name string) string {
+	if strings.HasPrefix(name, "(") {
+		end := strings.Index(name, ")")
+		if end < 0 {
+			return name
+		}
+		recv, meth := name[1:end], name[end+1:]
+		star := ""
+		if strings.HasPrefix(recv, "*") {
+			star, recv = "*", recv[1:]
+		}
+		dot := strings.LastIndex(recv, ".")
+		if dot < 0 {
+			return name
+		}
+		return recv[:dot] + "::(" + star + recv[dot+1:] + ")" + meth
+	}
+	dot := strings.LastIndex(name, ".")
+	if dot < 0 {
+		return name
+	}
+	return name[:dot] + "::" + name[dot+1:]
 }
